@@ -353,3 +353,33 @@ Proof.
   assert (H0 : t16 (xts_T E2 m2 tweak 0)) by exact Ht.
   rewrite !(xts_full_ext D m1 m2 Ha Hp) by exact H0. reflexivity.
 Qed.
+
+(* tweak_incr = + 1 on the little-endian 128-bit data-unit number, wrapping *)
+Local Open Scope N_scope.
+Lemma le_to_N_lt l : bytes_ok l = true -> le_to_N l < 256 ^ N.of_nat (length l).
+Proof.
+  induction l as [|b r IH]; intros H; [cbn; lia|].
+  rewrite bytes_ok_cons in H. apply andb_true_iff in H. destruct H as [Hb Hr]. apply N.ltb_lt in Hb.
+  specialize (IH Hr). cbn [le_to_N length]. rewrite Nat2N.inj_succ, N.pow_succ_r'. nia.
+Qed.
+Theorem tweak_incr_spec l : bytes_ok l = true ->
+  le_to_N (tweak_incr l) = (le_to_N l + 1) mod 256 ^ N.of_nat (length l) /\
+  length (tweak_incr l) = length l /\ bytes_ok (tweak_incr l) = true.
+Proof.
+  induction l as [|b r IH]; intros H; [cbn; auto|].
+  rewrite bytes_ok_cons in H. apply andb_true_iff in H. destruct H as [Hb Hr]. apply N.ltb_lt in Hb.
+  specialize (IH Hr). destruct IH as (IV & IL & IO).
+  pose proof (le_to_N_lt r Hr) as Hlt.
+  cbn [tweak_incr length]. rewrite Nat2N.inj_succ, N.pow_succ_r'.
+  set (P := 256 ^ N.of_nat (length r)) in *.
+  assert (HP : 0 < P) by (apply N.neq_0_lt_0, N.pow_nonzero; discriminate).
+  destruct (N.eqb_spec ((b + 1) mod 256) 0) as [Hz|Hz].
+  - assert (b = 255) by lia. subst b. cbn [le_to_N length]. rewrite IV, IL.
+    change ((255 + 1) mod 256) with 0. split; [|split; [reflexivity|]].
+    + replace (255 + 256 * le_to_N r + 1) with (256 * (le_to_N r + 1)) by lia.
+      rewrite N.mul_mod_distr_l by lia. lia.
+    + rewrite bytes_ok_cons, IO. reflexivity.
+  - rewrite (N.mod_small (b + 1) 256) by lia. cbn [le_to_N length]. split; [|split; [reflexivity|]].
+    + rewrite N.mod_small by nia. lia.
+    + rewrite bytes_ok_cons, Hr. replace (b + 1 <? 256) with true by lia. reflexivity.
+Qed.
